@@ -270,6 +270,16 @@ class C05(fw.Prop):
             yield mk(dict(k="enc", x=hx(pt), tag="reused-sc", scprev=prev, **p))
             yield mk(dict(k="dec", x=hx(ct), tag="reused-sc", scprev=prev, **p))
             yield mk(dict(k="gmac", x=hx(rb(16)), tag="reused-sc", scprev=prev, **p))
+        # texts that are themselves compressed streams, under security controls with and without the compression bit: protection
+        # is removed, nothing more (what was protected comes back)
+        import zlib
+        for v in (0x30, 0xB0, 0xF0, 0x90, 0xA0, 0xB1, 0xB2):
+            for inner in (b"meter reading 12345", bytes(200), b""):
+                p = params(suite=v % 16, scb=v)
+                for pt in (zlib.compress(inner), zlib.compress(inner, 9)[:-1] + b"\x00", b"\x78\x9c" + inner):
+                    ct = ref_gcm(bytes.fromhex(p["key"]), bytes.fromhex(p["title"]) + p["ic"].to_bytes(4, "big"), sc_obj(v).to_bytes() + bytes.fromhex(p["ak"]), pt)
+                    yield mk(dict(k="enc", x=hx(pt), tag="compressed-stream", **p))
+                    yield mk(dict(k="dec", x=hx(ct), tag="compressed-stream", via_apdu=(v & 0x30 == 0x30), **p))
         # both keys of the wrong length at once (lengths that add up to the right total, and others)
         for suite in (0, 1, 2):
             klen = 32 if suite == 2 else 16
